@@ -9,7 +9,7 @@ PROPERTY = "C19"
 RULE = ("gradient cases: (stage, parameterisation, dtype, shape, input scale) for AWGN, Laplacian, PhaseNoise, FlatFading (Rayleigh/Rician), Nonlinear (cubic; direct/cartesian/"
         "polar), TotalPower, AveragePower, PerAntennaPower, PAPR in float64 under a frozen RNG, seeded inputs generated away from clipping kinks; torch.autograd.gradcheck for "
         "power parameterisations, 8-direction central differences for SNR parameterisations; end-to-end cases: (architecture, image size in {16,32,48,64} admitted by the "
-        "stride, batch in {1,2,5}) for Bourtsoulatze2019, Tung2022 Q and Q2 (csi), Kurka2020, Yilmaz2024 WZ small/full/conditional and Yilmaz2023 NOMA, with shape, range, "
+        "stride, batch in {1,2,5}, plus seed-generated rectangular sizes H x W (independent multiples of the stride, mostly not multiples of 16 for the stride-4 architectures) with batch 1..7) for Bourtsoulatze2019, Tung2022 Q and Q2 (csi), Kurka2020, Yilmaz2024 WZ small/full/conditional and Yilmaz2023 NOMA, with shape, range, "
         "bandwidth-ratio and per-parameter gradient checks. Non-trivial: every distinct (stage or architecture, dtype, size) case; gradients are compared at random points.")
 ASSUMPTIONS = ["SNR parameterisations route the noise scale through a float32 cast, so they are compared by central differences along 8 unit directions (eps 1e-2, tolerance 5e-3 relative + 2e-3 of the gradient norm) rather than gradcheck",
                "a parameter's gradient is flagged only if it is exactly zero for three independent initialisations and inputs (dead ReLU-type units of one initialisation are not a defect)",
@@ -369,6 +369,22 @@ def unit_e2e(ctx, arch, sizes, batches):
                 check_e2e(ctx, {"arch": arch, "image": "non_square"}, {"arch": arch, "size": hw, "batch": 2, "seed": ctx.seed})
 
 
+def unit_e2e_generated(ctx, arch, n):
+    """Seed-driven admissible sizes: H and W independent multiples of the architecture's stride (for the stride-4 architectures mostly NOT multiples of 16),
+    batch sizes 1..7 - the part of 'every admissible image size and batch size' that the fixed grid {16,32,48,64} x {1,2,5} never visits."""
+    stride = 4 if arch in ("bourtsoulatze2019", "kurka2020", "kurka2020_feedback_model") else 16
+    rng = np.random.RandomState((ctx.seed * 7919 + sum(map(ord, arch))) % (2 ** 31))
+    top = 72 if stride == 4 else 96
+    done = set()
+    while len(done) < n:
+        h, w = (int(stride * rng.randint(2 if stride == 4 else 1, top // stride + 1)) for _ in range(2))
+        b = int(rng.randint(1, 8))
+        if (h, w) in done or (h == w and h in (16, 32, 48, 64)):
+            continue
+        done.add((h, w))
+        check_e2e(ctx, {"arch": arch, "image": "generated"}, {"arch": arch, "size": [h, w], "batch": b, "seed": ctx.seed})
+
+
 def units(tier, seed):
     T = tier == "thorough"
     names = list(stages())
@@ -383,4 +399,7 @@ def units(tier, seed):
             sizes = [16, 32]
         for s in sizes:
             us.append(Unit(f"e2e_{arch}_{s}", "c19:unit_e2e", {"arch": arch, "sizes": [s], "batches": [1, 2, 5] if (T or s <= 32) else [1, 2]}, (s / 16) ** 2 * (6 if arch == "kurka2020" else 2)))
+        if arch != "yilmaz2023_noma_embedding":  # built for one image_shape
+            for j in range(4 if T else 1):
+                us.append(Unit(f"e2e_{arch}_gen{j}", "c19:unit_e2e_generated", {"arch": arch, "n": (6 if T else 3) if not arch.startswith("kurka") else 2}, 8))
     return us
